@@ -168,7 +168,11 @@ func writeInputs(c Case, dir string) ([]string, []string, int) {
 		var b strings.Builder
 		for i := 0; i < n; i++ {
 			tpl := randSeq(&x, c.SeqLen+int(x.next()%100), "acgt")
-			for k := int(x.next() % 3); k > 0; k-- {
+			nsites := int(x.next() % 3)
+			if n >= 2000 && i > n/5 && i < 4*n/5 {
+				nsites = 0 // a long stretch of templates without amplicon: whole reading chunks yield empty batches
+			}
+			for k := nsites; k > 0; k-- {
 				bar := randSeq(&x, 15+int(x.next()%60), "acgt")
 				site := fwdPrimer + bar + ref.RevComp(revPrimer)
 				if x.next()%2 == 0 {
@@ -186,7 +190,13 @@ func writeInputs(c Case, dir string) ([]string, []string, int) {
 	var b strings.Builder
 	for i := 0; i < n; i++ {
 		s := randSeq(&x, c.SeqLen+int(x.next()%50), "acgtACGT")
-		title := fmt.Sprintf(`{"count":%d,"k":%d,"label":"x %d","m":{"a":%d,"b":2}} some definition %d`, 1+x.next()%5, i%5, i, i%3, i)
+		extra := ""
+		if n >= 2000 { // many attributes on the large inputs: more work (and more shared scratch state, if any) per record
+			for a := 0; a < 10; a++ {
+				extra += fmt.Sprintf(`,"a%d":%d`, a, (i*7+a)%13)
+			}
+		}
+		title := fmt.Sprintf(`{"count":%d,"k":%d,"label":"x %d","m":{"a":%d,"b":2}%s} some definition %d`, 1+x.next()%5, i%5, i, i%3, extra, i)
 		id := fmt.Sprintf("s%d", i)
 		if c.Fastq {
 			b.WriteString(fq(id, title, s, &x))
@@ -357,7 +367,7 @@ func tail(b []byte) string {
 var toolOpts = map[string][][]string{
 	"obiconvert":    {{}, {"--fasta-output"}, {"--json-output"}, {"--fastq-output"}},
 	"obigrep":       {{"-l", "40"}, {"-L", "60"}, {"-c", "3"}, {"-s", "acg[acgt]t"}, {"-a", "k=[0-2]"}, {"-l", "30", "-v"}, {"-A", "label", "-l", "45"}},
-	"obiannotate":   {{"--length"}, {"--delete-tag", "k"}, {"--clear"}, {"--length", "--delete-tag", "label"}, {"-k", "count"}},
+	"obiannotate":   {{"--length"}, {"--delete-tag", "k"}, {"--clear"}, {"--length", "--delete-tag", "label"}, {"-k", "count"}, {"-k", "count", "-k", "label"}, {"-R", "k=kk", "--delete-tag", "m"}, {"-S", "twice=annotations.count * 2"}},
 	"obicomplement": {{}},
 	"obipairing":    {{}, {"--exact-mode"}, {"--fast-absolute"}, {"--min-overlap", "10"}, {"-S"}},
 	"obimultiplex":  {{"-e", "2"}, {"-e", "0"}, {"-e", "2", "--keep-errors"}},
@@ -385,6 +395,15 @@ func TestPropParallelism(t *testing.T) {
 			c.Fastq = false
 			c.SeqLen = rapid.IntRange(100, 500).Draw(rt, "tpllen")
 			c.N = min(c.N, 300)
+			if rapid.IntRange(0, 5).Draw(rt, "pcr_large") == 0 {
+				// several MiB of templates (several 1 MiB reading chunks), amplicons only at both ends
+				c.N, c.SeqLen = rapid.IntRange(3000, 5000).Draw(rt, "pcr_n"), rapid.IntRange(900, 1200).Draw(rt, "pcr_len")
+			}
+		} else if c.Tool == "obiannotate" && rapid.IntRange(0, 2).Draw(rt, "annotate_large") == 0 {
+			// the edit workers run as one closure shared by all worker goroutines: give them many batches at once
+			c.N = rapid.IntRange(15000, 25000).Draw(rt, "annotate_n")
+		} else if c.Tool != "obipairing" && c.Tool != "obimultiplex" && rapid.IntRange(0, 7).Draw(rt, "large") == 0 {
+			c.N = rapid.IntRange(3000, 9000).Draw(rt, "large_n") // hundreds of batches in flight
 		}
 		if len(c.Opts) > 0 && c.Opts[0] == "--fastq-output" && !c.Fastq {
 			c.Opts = []string{}
@@ -400,6 +419,9 @@ func TestPropParallelism(t *testing.T) {
 			if c.N >= 300 && cfg.Batch > 0 && cfg.Batch < 3 {
 				cfg.Batch = 7 // one-record batches on large inputs only cost time
 			}
+			if c.N >= 2000 && cfg.Batch > 0 && cfg.Batch < 20 {
+				cfg.Batch = 20
+			}
 			c.Configs = append(c.Configs, cfg)
 			if cfg.MaxCPU != 1 && cfg.Procs != 1 && cfg.Batch > 0 && cfg.Batch < c.N {
 				nontrivial = true
@@ -411,6 +433,9 @@ func TestPropParallelism(t *testing.T) {
 		}
 		if c.N >= 120 {
 			cl = append(cl, "n>=120")
+		}
+		if c.N >= 2000 {
+			cl = append(cl, "n>=2000_many_batches_or_chunks")
 		}
 		evid.Eval("parallelism", evid.Hash(fmt.Sprintf("%+v", c)), nontrivial, c, cl...)
 		if err := checkCase(c); err != nil {
